@@ -223,7 +223,6 @@ func (l AL) step(o Op) (AL, Out) {
 	panic("oracle: unknown op " + o.Op)
 }
 
-
 // ---------------------------------------------------------------- subject
 
 var starSrc = `
@@ -1432,7 +1431,7 @@ func exhaustive(tkind, route, hname string, L, workers int, core bool) {
 
 // ---------------------------------------------------------------- random long histories
 
-var dists = []string{"allequal", "modtable", "sequential", "zero", "pairs", "random32", "low3bits"}
+var dists = []string{"allequal", "heavychain", "modtable", "sequential", "zero", "heavychain2", "pairs", "random32", "low3bits"}
 
 func hashFor(dist string, id int, r *hx.Rand) int {
 	switch dist {
@@ -1448,6 +1447,16 @@ func hashFor(dist string, id int, r *hx.Rand) int {
 		return id / 2
 	case "low3bits":
 		return (id%3)<<29 | 5 // three values, equal modulo 2^29
+	case "heavychain": // two thirds of the keys in ONE chain (distinct hashes equal modulo 2^12), the rest spread over the others
+		if id%3 != 0 {
+			return id<<12 | 5
+		}
+		return id
+	case "heavychain2": // three heavy neighbouring chains and a sparse rest
+		if id%4 != 0 {
+			return id<<12 | (6 + id%3)
+		}
+		return id
 	}
 	return int(uint32(r.Uint64()))
 }
@@ -1455,7 +1464,7 @@ func hashFor(dist string, id int, r *hx.Rand) int {
 func randomHistory(r *hx.Rand, tkind, route, dist string, nops int) History {
 	universe := 6000
 	maxLive := 3000
-	if dist == "allequal" || dist == "zero" || dist == "low3bits" {
+	if dist == "allequal" || dist == "zero" || dist == "low3bits" || dist == "heavychain" || dist == "heavychain2" {
 		universe, maxLive = 1500, 700 // quadratic chains
 	}
 	h := History{TKind: tkind, Route: route, Init: -1}
@@ -1528,9 +1537,9 @@ func randomHistory(r *hx.Rand, tkind, route, dist string, nops int) History {
 			delete(live, k)
 		case x < 95:
 			o = Op{Op: "popfirst"}
-		case x < 96:
+		case x < 97:
 			o = Op{Op: "lookup", K: r.Intn(universe)}
-			if tkind == "set" && r.Intn(2) == 0 {
+			if tkind == "set" && r.Intn(4) != 0 {
 				// subset / superset queries: random collection, all live keys (+ extras), or a live subset
 				var ks []int
 				switch r.Intn(3) {
@@ -1967,6 +1976,212 @@ func emitObserved(h History, id int) {
 	hx.Emit(out)
 }
 
+// ---------------------------------------------------------------- big collections with one overlong chain
+//
+// A handful of cases per run: a table of 8..64 chains in which ONE chain holds 65..200
+// entries (hashes equal modulo 2^12 but distinct, some fully equal) and its neighbours and
+// a few other chains are populated too, filled in shuffled order with some deletions; then
+// every query (issubset / issuperset by method and the six comparison operators) and every
+// derived operation is run against second BIG collections (the same elements reversed, a
+// superset, a subset missing one element of the long chain / of a neighbour, a shuffle with
+// duplicates, a disjoint one) and compared with the association list.
+func bigCase(r *hx.Rand, tkind, route string) History {
+	h := History{TKind: tkind, Route: route, Init: -1}
+	nbT := []int{8, 16, 32, 64}[r.Intn(4)]
+	heavy := 65 + r.Intn(136)
+	if r.Intn(3) == 0 {
+		heavy = 65 + r.Intn(8) // just past one 64-bit word
+	}
+	maxTotal := int(6.4 * float64(nbT))
+	if heavy > maxTotal-nbT {
+		heavy = maxTotal - nbT
+	}
+	if heavy < 65 {
+		// a small table cannot stay small with 65 entries: let it be what it grows to
+		heavy = 65 + r.Intn(10)
+	}
+	c := r.Intn(nbT)
+	id := 0
+	var ids []int
+	add := func(hash int) {
+		h.Hashes = append(h.Hashes, [2]int{id, hash})
+		ids = append(ids, id)
+		id++
+	}
+	for j := 0; j < heavy; j++ {
+		hv := c + 4096*(j+1)
+		if j%9 == 8 {
+			hv = c + 4096 // fully equal 32-bit hashes too
+		}
+		add(hv)
+	}
+	nheavy := id
+	// neighbours and a few others
+	for _, d := range []int{1, 1, 1, -1, -1, 2, 5} {
+		add(((c+d+64)%64 + 4096*(1+r.Intn(50))))
+	}
+	for j := 0; j < nbT/2+r.Intn(nbT); j++ {
+		add(r.Intn(64) + 4096*r.Intn(50))
+	}
+	if c == 0 || r.Intn(4) == 0 {
+		add(0) // hash 0 -> 1
+	}
+	total := id
+	// spare keys never inserted into x (for supersets / disjoint operands)
+	for j := 0; j < 40; j++ {
+		add(r.Intn(64) + 4096*r.Intn(50))
+	}
+	if r.Intn(2) == 0 {
+		h.Init = []int{0, 30, 60, 120, 250, total}[r.Intn(6)]
+	}
+	order := append([]int{}, ids[:total]...)
+	for i := len(order) - 1; i > 0; i-- {
+		j := r.Intn(i + 1)
+		order[i], order[j] = order[j], order[i]
+	}
+	v := func(i int) int {
+		if tkind == "set" {
+			return 0
+		}
+		return i + 1
+	}
+	for i, k := range order {
+		h.Ops = append(h.Ops, Op{Op: "insert", K: k, V: v(i)})
+		if i%17 == 16 { // holes, refilled later in other slots
+			h.Ops = append(h.Ops, Op{Op: "delete", K: order[r.Intn(i)]})
+		}
+	}
+	for _, k := range order[:len(order)/8] {
+		h.Ops = append(h.Ops, Op{Op: "insert", K: k, V: v(k)})
+	}
+	rev := func(a []int) []int {
+		b := make([]int, len(a))
+		for i := range a {
+			b[len(a)-1-i] = a[i]
+		}
+		return b
+	}
+	shuf := func(a []int) []int {
+		b := append([]int{}, a...)
+		for i := len(b) - 1; i > 0; i-- {
+			j := r.Intn(i + 1)
+			b[i], b[j] = b[j], b[i]
+		}
+		return b
+	}
+	all := ids[:total]
+	spare := ids[total:]
+	without := func(a []int, x int) []int {
+		var b []int
+		for _, k := range a {
+			if k != x {
+				b = append(b, k)
+			}
+		}
+		return b
+	}
+	dup := shuf(append(append([]int{}, all...), all[:len(all)/3]...))
+	operands := [][]int{
+		rev(all), shuf(all), dup,
+		append(shuf(all), spare[:5]...),
+		without(shuf(all), r.Intn(nheavy)),  // misses one of the long chain
+		without(rev(all), nheavy+r.Intn(3)), // misses one of the neighbour chain
+		shuf(all[:nheavy]),                  // only the long chain
+		shuf(all[nheavy:]),                  // everything but the long chain
+		append(shuf(spare), all[nheavy]),    // nearly disjoint
+	}
+	if tkind == "set" {
+		for _, ks := range operands {
+			for _, name := range []string{"issubset", "issuperset"} {
+				h.Ops = append(h.Ops, Op{Op: name, Ks: ks}, Op{Op: name, Ks: dedupInts(ks), Form: 1})
+			}
+		}
+		// derived operations, each followed by queries on the derived set
+		derived := []string{"setunion", "setdiff", "setinter", "setsymdiff", "setunion", "setinter"}
+		for i, name := range derived {
+			ks := operands[(i*2+3)%len(operands)]
+			form := i % 2
+			if form == 1 {
+				ks = dedupInts(ks)
+			}
+			h.Ops = append(h.Ops, Op{Op: name, Ks: ks, Form: form})
+			if name != "setunion" {
+				// refill so that the long chain stays long
+				var l [][2]int
+				for _, k := range shuf(all) {
+					l = append(l, [2]int{k, 0})
+				}
+				h.Ops = append(h.Ops, Op{Op: "issubset", Ks: rev(all), Form: 1}, Op{Op: "update", L: l, Form: i % 2})
+			}
+			h.Ops = append(h.Ops, Op{Op: "issubset", Ks: shuf(all), Form: 1 - form}, Op{Op: "issuperset", Ks: dup, Form: 0},
+				Op{Op: "issubset", Ks: operands[4], Form: form}, Op{Op: "popfirst"}, Op{Op: "issubset", Ks: rev(all), Form: form})
+		}
+	} else {
+		for i, ks := range operands {
+			var l [][2]int
+			for _, k := range ks {
+				l = append(l, [2]int{k, 1000 + i})
+			}
+			name := []string{"update", "dictunion"}[i%2]
+			form := (i / 2) % 2
+			if form == 1 {
+				var l2 [][2]int
+				seen := map[int]bool{}
+				for _, p := range l {
+					if !seen[p[0]] {
+						seen[p[0]] = true
+						l2 = append(l2, p)
+					}
+				}
+				l = l2
+			}
+			h.Ops = append(h.Ops, Op{Op: name, L: l, Form: form}, Op{Op: "popfirst"}, Op{Op: "delete", K: all[r.Intn(len(all))], Form: i % 2},
+				Op{Op: "setdefault", K: all[r.Intn(len(all))], V: 7000 + i})
+		}
+	}
+	return h
+}
+
+func bigsets(n int, seed uint64) {
+	root := hx.NewRand(seed)
+	mism := 0
+	seen := map[string]bool{}
+	var chain, grew, reused, maxChain, opsN int
+	perKind := map[string]int{}
+	for i := 0; i < n; i++ {
+		tkind := []string{"set", "set", "dict"}[i%3]
+		route := []string{"go", "star"}[(i/3)%2]
+		h := bigCase(root.Split(), tkind, route)
+		perKind[tkind+"/"+route]++
+		opsN += len(h.Ops)
+		var cov Cov
+		m := runGuarded(h, 0, nil, &cov, 60*time.Second)
+		if cov.MaxChain > 1 {
+			chain++
+		}
+		if cov.Grew {
+			grew++
+		}
+		if cov.Reused {
+			reused++
+		}
+		if cov.MaxChain > maxChain {
+			maxChain = cov.MaxChain
+		}
+		if m != nil {
+			mism++
+			m.Mode = "big"
+			if !seen[m.Class] {
+				seen[m.Class] = true
+				m.Ops = m.Ops[:m.At+1]
+				hx.Emit(m)
+			}
+		}
+	}
+	hx.Emit(map[string]any{"kind": "big", "histories": n, "op_executions": opsN, "mismatches": mism, "distribution": perKind,
+		"coverage": map[string]any{"chain_gt1_bucket": chain, "grew": grew, "reused_vacated_slot": reused, "max_chain_buckets": maxChain}})
+}
+
 // ---------------------------------------------------------------- whole programs with built-in key types
 //
 // Histories written as Starlark SOURCE over keys of the built-in types (short and long
@@ -2241,6 +2456,8 @@ func main() {
 		sample(*n, *maxops, *seed)
 	case "programs":
 		programs(*n, *maxops, *seed)
+	case "bigsets":
+		bigsets(*n, *seed)
 	case "replay":
 		var h History
 		if err := json.NewDecoder(os.Stdin).Decode(&h); err != nil {
